@@ -27,13 +27,13 @@ from props.alglib import PERIOD
 
 FUNCS = alglib.ALG_FUNCS + ["acnportal.algorithms.uncontrolled_charging.UncontrolledCharging.schedule"]
 ASSUMPTIONS = simlib.SIM_ASSUMPTIONS + [
-    "distinct priority keys (assumed pairwise different, as the statement does); no estimator, no uninterrupted charging (lower bounds 0); every session has more than 1e-3 kWh left",
+    "distinct priority keys (assumed pairwise different, as the statement does); no estimator; with uninterrupted charging the lower bounds are those of the documented minimum-rate rule (reference in the harness), otherwise 0; every session has more than one period of its minimum pilot left",
     "continuous EVSE max pilots 0.08-0.64 A so that the eps = 0.01 A bisection has depth <= 3-6; optimality is claimed within that eps, with a 1e-9 relative band on the limits (the algorithm-side checker and the definition are compared in exact arithmetic)",
     "the feasible set of one coordinate is an interval containing the lower bound (convexity of |a + b r| <= L); the obligation does not use this, it quantifies over every alternative rate",
     "round-robin reference: constraint limits within 1e-9 (relative) of the boundary of a trial schedule are excluded (IEEE rounding of concrete level arithmetic decides there)",
     "round-robin reference model: allowable levels of a continuous EVSE are 0, inc, 2 inc, ... up to min(max pilot, remaining amp-periods) (what np.arange(min, max + inc/2, inc) filtered by <= bound denotes)",
 ]
-EXPECT_GLOBAL_TAGS = ("greedy:bisected", "greedy:at_upper_bound", "greedy:level_below_bound", "rr:dropped_while_blocked", "rr:reached_bound", "uncontrolled", "order:symbolic_keys")
+EXPECT_GLOBAL_TAGS = ("greedy:uninterrupted", "greedy:bisected", "greedy:at_upper_bound", "greedy:level_below_bound", "rr:dropped_while_blocked", "rr:reached_bound", "uncontrolled", "order:symbolic_keys")
 EPS = 0.01
 BAND = 1e-9
 
@@ -76,6 +76,28 @@ def _less(cx, x, y):
     return bool(core.SymBool(p.z3()))
 
 
+def min_rate_reference(cx, sc, maxpil, minpil):
+    """lower / upper bounds after uninterrupted-charging preprocessing, from its documented rule: in order of remaining time, a
+    session gets its EVSE's minimum pilot as lower bound if that does not exceed its remaining demand and is feasible together with
+    the minimum rates already admitted; otherwise it is not charged at all (bounds 0)"""
+    n = len(sc.stations)
+    order = sorted(range(len(sc.sessions)), key=lambda k: sc.sessions[k][2] - sc.t_now)
+    rates = [0] * n
+    lb, ub = {}, {}
+    for k in order:
+        j = sc.sessions[k][0]
+        rem = alglib.remaining_amp_periods(sc, k)
+        trial = list(rates)
+        trial[j] = minpil[j]
+        if _leq(cx, minpil[j], rem) and _feasible_outside_band(cx, sc, trial):
+            rates = trial
+            lb[k] = minpil[j]
+            ub[k] = sym_max(sym_min(maxpil[j], rem), minpil[j])
+        else:
+            lb[k], ub[k] = 0, 0
+    return lb, ub
+
+
 def _setup(cx, stations, rows, sessions, sort, factory, limit_hi):
     sc = alglib.build(cx, stations, rows, sessions, factory, limit_hi=limit_hi, sym_battery=False, finite_prev=(8,))
     for k, ev in enumerate(sc.evs):
@@ -91,25 +113,34 @@ def _setup(cx, stations, rows, sessions, sort, factory, limit_hi):
     return sc, ks
 
 
-def h_greedy(cx, stations, rows, sessions, sort, limit_hi):
+def h_greedy(cx, stations, rows, sessions, sort, limit_hi, uninterrupted=False):
     env.install(cx)
     import acnportal.algorithms as ALG
 
-    sc, ks = _setup(cx, stations, rows, sessions, sort, lambda: ALG.SortedSchedulingAlgo(alglib.sort_fn(sort)), limit_hi)
+    sc, ks = _setup(cx, stations, rows, sessions, sort, lambda: ALG.SortedSchedulingAlgo(alglib.sort_fn(sort), uninterrupted_charging=uninterrupted), limit_hi)
     n = len(stations)
     maxpil = [float(v) for v in sc.net.max_pilot_signals]
+    minpil = [float(v) for v in sc.net.min_pilot_signals]
     out = sc.algo.run()
     x = [out[sid][0] for sid in sc.ids]
     order = priority_order(cx, ks)
     cx.observe("schedule", x)
+    if uninterrupted:
+        lbs, ubs = min_rate_reference(cx, sc, maxpil, minpil)
+        cx.tag("greedy:uninterrupted")
+    else:
+        lbs = {k: 0 for k in range(len(sessions))}
+        ubs = {k: sym_min(maxpil[sessions[k][0]], alglib.remaining_amp_periods(sc, k)) for k in range(len(sessions))}
     cur = [0] * n
+    for k in range(len(sessions)):
+        cur[sessions[k][0]] = lbs[k]
     for pos, k in enumerate(order):
         j = sessions[k][0]
-        ub = sym_min(maxpil[j], alglib.remaining_amp_periods(sc, k))
+        ub = ubs[k]
         cur[j] = x[j]
         label = "session#%d(priority %d)" % (k, pos)
         cx.check(label + ":granted_rate_feasible_given_higher_priority_grants", alglib.feasible_def(sc, list(cur), 1 + BAND))
-        cx.check(label + ":within_bounds", and_(ge(x[j], 0), le(x[j], ub + 1e-9)))
+        cx.check(label + ":within_bounds", and_(or_(ge(x[j], lbs[k]), eq(x[j], 0)), le(x[j], ub + 1e-9)))
         lv = alglib.levels(stations[j][0])
         if lv is None:
             alt = cx.real("alternative_rate%d" % k, lo=0, hi=maxpil[j])
@@ -123,6 +154,8 @@ def h_greedy(cx, stations, rows, sessions, sort, limit_hi):
         else:
             cx.check(label + ":granted_rate_is_a_level", or_(*[eq(x[j], v) for v in lv]))
             for v in lv:
+                if v < lbs[k]:
+                    continue
                 trial = list(cur)
                 trial[j] = v
                 cx.check(label + ":no_larger_level_is_feasible", implies(and_(gt(v, x[j]), le(v, ub)), not_(alglib.feasible_def(sc, trial, 1 - BAND))))
@@ -261,6 +294,10 @@ def jobs(tier):
         for sort in (SORTS if not q else {"cont+cc": ("fcfs", "llf"), "cont+cont(2 rows)": ("lrpt",), "av5+cc(mixed sign)": ("lcfs", "edf"), "three-phase": ("edf",)}[name]):
             js.append(Job("greedy[%s,%s]" % (name, sort), h_greedy, dict(stations=st, rows=rows, sessions=sess, sort=sort, limit_hi=lh), functions=FUNCS, max_paths=200000, timeout=6000,
                           bounds=dict(stations=[s[0] + "@%dV/%d" % (s[1], s[2]) for s in st], constraints=rows, sessions=len(sess), sort=sort, eps=EPS), cost=100 if len(st) == 3 else 20))
+        if name in ("av5+cc(mixed sign)", "cont+cc"):
+            for sort in (("edf", "lcfs") if q else SORTS):
+                js.append(Job("greedy_uninterrupted[%s,%s]" % (name, sort), h_greedy, dict(stations=st, rows=rows, sessions=sess, sort=sort, limit_hi=lh, uninterrupted=True), functions=FUNCS,
+                              max_paths=200000, timeout=6000, bounds=dict(stations=[s[0] + "@%dV/%d" % (s[1], s[2]) for s in st], constraints=rows, sessions=len(sess), sort=sort, uninterrupted=True), cost=30))
         for sort, inc in ((("fcfs", 0.03), ("llf", 0.05)) if q else [(s_, i_) for s_ in SORTS for i_ in (0.03, 0.1)]):
             if q and name == "three-phase" and sort == "llf":
                 continue
